@@ -255,8 +255,7 @@ def check_roundtrip(chk, case):
         nsym = -(-n // used)
         pad = nsym * used - n
         xpad = np.concatenate([x0, np.zeros(pad, dtype=complex)])
-        o = OFDM(fft, cp, used)
-        tx = np.asarray(o.modulate(x))
+        # enumeration-derived non-vacuity keys (recorded before the library is called)
         if n > 1:
             chk.nontriv(("rt", fft, cp, used, n))
         chk.outcome("nsym", nsym)
@@ -264,6 +263,10 @@ def check_roundtrip(chk, case):
             chk.outcome("padding_configs", (fft, cp, used, n))
         if cp in (0, fft):
             chk.outcome("cp_edge_configs", (fft, cp))
+        if used < fft:
+            chk.outcome("guard_bins", fft - 1 - used)
+        o = OFDM(fft, cp, used)
+        tx = np.asarray(o.modulate(x))
         if x.shape != x0.shape or not np.array_equal(x, x0):
             chk.fail(("modulate", "mutates_input"), case, observed=x, expected=x0)
         # (2) length
@@ -289,7 +292,6 @@ def check_roundtrip(chk, case):
             guard = [k for k in range(1, fft) if k not in ub]
             sc = numerics.scale(X)
             chk.count("n_unused_bins", nsym * (1 + len(guard)))
-            chk.outcome("guard_bins", len(guard))
             if not numerics.close(X[:, 0], np.zeros(nsym), kappa=fft, c=C_DFT, scale_=sc):
                 chk.fail(("modulate", "energy_on_unused_subcarrier", "DC"), case,
                          observed=float(np.max(np.abs(X[:, 0]))), expected="0 (scale %g)" % sc)
@@ -333,6 +335,13 @@ def check_channel(chk, case):
         x = syms(n, off)
         nsym = -(-n // used)
         xpad = np.concatenate([x, np.zeros(nsym * used - n, dtype=complex)])
+        if len(delays) > 1 or delays[0] > 0:
+            chk.nontriv(("ch", fft, cp, used, tuple(delays)))
+        chk.outcome("ntaps", len(delays))
+        if max(delays) == cp:
+            chk.outcome("memory_eq_cp", (fft, cp, used))
+        if cp in (0, fft):
+            chk.outcome("cp_edge_channel_configs", (fft, cp))
         o = OFDM(fft, cp, used)
         tx = np.asarray(o.modulate(x.copy()))
         jakes = JakesSampleGenerator(Fd=0.0, Ts=1.0, L=JAKES_L, RS=np.random.RandomState(seed))
@@ -353,13 +362,6 @@ def check_channel(chk, case):
             return
         mem = int(idx.max())
         taps = tv[:, 0]
-        if len(delays) > 1 or delays[0] > 0:
-            chk.nontriv(("ch", fft, cp, used, tuple(delays)))
-        chk.outcome("ntaps", len(delays))
-        if mem == cp:
-            chk.outcome("memory_eq_cp", (fft, cp, used))
-        if cp in (0, fft):
-            chk.outcome("cp_edge_channel_configs", (fft, cp))
         ub = ref_used_bins(fft, used)
         H = true_freq_response(idx, taps, fft, ub)
         hmin, hmax = float(np.min(np.abs(H))), float(np.max(np.abs(H)))
@@ -481,7 +483,7 @@ def main(chk: Check):
     chk.require_outcomes("ntaps", 3)
     chk.require_outcomes("guard_bins", 3)
     chk.require_outcomes("params", 2)
-    if "recovered" not in chk.outcomes.get("equalize_result", ()):
+    if "recovered" not in chk.outcomes.get("equalize_result", ()) and not chk.violations:
         from vmc.report import Broken
         raise Broken("vacuous: no channel case reached the comparison of the equalised symbols")
 
